@@ -13,8 +13,8 @@ oracle: for every pipeline: ALL variants {SQLite, PostgreSQL dialect} x {merge o
         variant must return the table returned by the variant closest to the library's defaults that runs (WITH form, merges
         on): same columns in the same order, same rows; same row order when the pipeline ends in a total order_rows.  A variant
         that raises, in generation or in execution, while another runs is a failure too.
-findings: C04-order-by-inside-union-operand is listed (known_findings.d/C04.json).  Three defects found by this check are repaired
-        in /repo: CTE reuse of a merged extend (efc7e6f), the cache key 'None' (0184359), KeyError in the merge test (05d5f06);
+findings: none listed.  Four defects found by this check are repaired in /repo: CTE reuse of a merged extend (efc7e6f), the cache
+        key 'None' (0184359), KeyError in the merge test (05d5f06), ORDER BY / LIMIT operand written unwrapped into UNION ALL (92e24a2);
         their witnesses stay in corpus/C04 and run first; the model's flags (read off the code at run time) follow the code."""
 import glob, json, os, re, time, warnings
 import lib, pipes
@@ -210,9 +210,32 @@ def make_model(dialect, merges):
     return m
 
 
+def start_id(ops, model):
+    """the number to_sql starts its generated view names with for this pipeline (0, or past a table that is itself named like a
+    view: 161d83f).  Read off a real to_sql call by recording the counter it hands to to_near_sql_implementation_."""
+    seen = []
+    real = ops.to_near_sql_implementation_
+
+    def spy(*, db_model, using, temp_id_source, **kw):
+        seen.append(temp_id_source[0])
+        return real(db_model=db_model, using=using, temp_id_source=temp_id_source, **kw)
+    try:
+        ops.to_near_sql_implementation_ = spy
+        model.to_sql(ops, sql_format_options=mk_options({"use_with": False, "use_cte_elim": False, "annotate": False, "initial_commas": False, "sql_indent": " "}))
+    except Exception:       # noqa
+        pass
+    finally:
+        try:
+            del ops.to_near_sql_implementation_
+        except AttributeError:
+            pass
+    return seen[0] if seen else 0
+
+
 def near_sql_of(ops, model):
+    """the NearSQL graph to_sql builds for the pipeline (same starting number for the generated names)"""
     ops.columns_used()
-    return ops.to_near_sql_implementation_(db_model=model, using=None, temp_id_source=[0])
+    return ops.to_near_sql_implementation_(db_model=model, using=None, temp_id_source=[start_id(ops, model)])
 
 
 def probe_flags():
@@ -462,6 +485,8 @@ def gen_case(rng, tier):
     big = tier == "thorough"
     tabs = [pipes.gen_table(rng, f"d{i+1}", null_rate=rng.choice([0.0, 0.15]), types=("int", "float", "str"), unique_col="uid",
                             nrows=rng.choice([1, 2, 3, 4, 5, 6])) for i in range(2)]
+    if rng.random() < 0.08:                 # a table that is itself named like a generated view
+        tabs[0]["name"] = rng.choice(["extend_1", "select_rows_2", "concat_rows_0", "natural_join_0"])
     g = pipes.Gen(rng, tabs, features=FEATURES)
     shape = rng.choice(["random", "random", "shared_join", "shared_concat", "merged_shared", "merged_shared", "narrowed_merge", "sqlnodes", "records",
                         "window_over_reassigned", "window_over_reassigned", "same_step_two_inputs"])
